@@ -88,18 +88,17 @@ def parseExp (cs : List Char) : Option Int :=
 
 def pow10 (e : Int) : Rat := if 0 ≤ e then (10 : Rat) ^ e.toNat else 1 / (10 : Rat) ^ (-e).toNat
 
-/-- the grammar of `Decimal(str)` (no surrounding whitespace) -/
-def parseDecimalLit (cs : List Char) : Option Rat :=
-  let (neg, body) := splitSign cs
+/-- unsigned part of the grammar of `Decimal(str)`:
+`digits [. digits*] | . digits`, optional exponent -/
+def parseDecimalBody (body : List Char) : Option Rat :=
   let mant := body.takeWhile fun c => c != 'e' && c != 'E'
   let expPart := body.dropWhile fun c => c != 'e' && c != 'E'
   match parseExp expPart with
   | none => none
   | some e =>
     let ip := mant.takeWhile (· != '.')
-    let rest := mant.dropWhile (· != '.')
     let res : Option Rat :=
-      match rest with
+      match mant.dropWhile (· != '.') with
       | [] => (parseNat ip).map fun n => (n : Rat)                 -- digits
       | _ :: fp =>
         if ip.isEmpty then                                         -- .digits
@@ -108,13 +107,14 @@ def parseDecimalLit (cs : List Char) : Option Rat :=
         else match parseNat ip, parseNat fp with
           | some n, some f => some ((n : Rat) + (f : Rat) / (10 : Rat) ^ fp.length)
           | _, _ => none
-    res.map fun x => applySign neg (x * pow10 e)
+    res.map fun x => x * pow10 e
 
-/-- `[sign] digits / digits` of `Fraction(str)`; a zero denominator raises
-ZeroDivisionError, which the constructor reports as QuantityError (after the
-`fix:` commit) -/
-def parseFractionLit (cs : List Char) : Option (Except Err Rat) :=
-  let (neg, body) := splitSign cs
+/-- the grammar of `Decimal(str)` (no surrounding whitespace) -/
+def parseDecimalLit (cs : List Char) : Option Rat :=
+  (parseDecimalBody (splitSign cs).2).map (applySign (splitSign cs).1)
+
+/-- unsigned `digits / digits` -/
+def parseFractionBody (body : List Char) : Option (Except Err Rat) :=
   let np := body.takeWhile (· != '/')
   match body.dropWhile (· != '/') with
   | [] => none
@@ -122,8 +122,14 @@ def parseFractionLit (cs : List Char) : Option (Except Err Rat) :=
     match parseNat np, parseNat dp with
     | some n, some d =>
       if d = 0 then some (.error .QuantityError)
-      else some (.ok (applySign neg ((n : Rat) / (d : Rat))))
+      else some (.ok ((n : Rat) / (d : Rat)))
     | _, _ => none
+
+/-- `[sign] digits / digits` of `Fraction(str)`; a zero denominator raises
+ZeroDivisionError, which the constructor reports as QuantityError (after the
+`fix:` commit) -/
+def parseFractionLit (cs : List Char) : Option (Except Err Rat) :=
+  (parseFractionBody (splitSign cs).2).map fun r => r.map (applySign (splitSign cs).1)
 
 /-- `Decimal(s)` first, then `Fraction(s)`, else QuantityError -/
 def parseAmountStr (cs : List Char) : Except Err Rat :=
